@@ -152,7 +152,39 @@ def run_kernel(kernel: str, repo: str, workdir: str, rlimit=None, timeout=900, c
     return res
 
 
+def reach_probe(kernel: str, repo: str, workdir: str, timeout=900):
+    """Reachability behind every precondition (thorough tier): re-extract the kernel with `assert(false)` spliced at the start
+    of every function under contract and require that each of those assertions FAILS.  A function whose probe verifies has
+    an unsatisfiable precondition (or an unreachable body): its contract is vacuous.  Returns dict(probed=[..], vacuous=[..])."""
+    os.makedirs(workdir, exist_ok=True)
+    extract.PROBE = True
+    try:
+        r = run_kernel(kernel, repo, workdir, timeout=timeout, canary=False)
+    finally:
+        extract.PROBE = False
+    out_rs = os.path.join(workdir, kernel + '.rs')
+    if r['status'] == 'undecided':
+        return dict(kernel=kernel, status='undecided', reason=r.get('reason', ''), probed=[], vacuous=[])
+    text = open(out_rs, encoding='utf-8').read().split('\n')
+    probes = {}   # line number -> qualified fn name
+    for i, ln in enumerate(text, 1):
+        m = re.search(r'/\*PROBE (\S+)\*/', ln)
+        if m:
+            probes[i] = m.group(1)
+    hit = set()
+    for f in r.get('failed', []):
+        if f['message'].startswith('assertion failed'):
+            for ln_no, q in probes.items():
+                if abs(ln_no - f['line']) <= 1:
+                    hit.add(q)
+    vac = sorted(set(probes.values()) - hit)
+    return dict(kernel=kernel, status='ok' if not vac else 'vacuous', probed=sorted(set(probes.values())), vacuous=vac, seconds=r.get('seconds'))
+
+
 if __name__ == '__main__':
+    if sys.argv[1] == 'probe':
+        print(json.dumps(reach_probe(sys.argv[2], sys.argv[3] if len(sys.argv) > 3 else '/repo', sys.argv[4] if len(sys.argv) > 4 else '/tmp/vk-probe'), indent=1))
+        sys.exit(0)
     wd = sys.argv[3] if len(sys.argv) > 3 else '/tmp/vk'
     os.makedirs(wd, exist_ok=True)
     r = run_kernel(sys.argv[1], sys.argv[2] if len(sys.argv) > 2 else '/repo', wd)
